@@ -8,7 +8,7 @@ from . import base
 TRUSTED_BASE = base.TRUSTED_BASE
 ASSUMPTIONS = base.ASSUMPTIONS + ['operator, fxpmath.add/sub/mul and np.add/subtract/multiply routes reach the same kernel: established by correspondence only']
 RULE = ('AR lines (op in add/sub/mul, policy optimal, method raw/repr, route operator/function/numpy): every pair of codes for operand words <=3 (quick) / <=4 (thorough) with n_frac in -1..n_word+1 and any '
-        'signedness mix; the four extreme-code corners of format pairs with result word <=53; random codes; arrays with broadcasting; EX lines: random expression trees of depth <=4 evaluated on both sides. '
+        'signedness mix; the four extreme-code corners of format pairs with result word <=53; random codes; arrays with broadcasting; EXPR lines: random expression trees of depth <=4 over leaves of up to 6 bits (result word <=53) evaluated on both sides, every leaf reached through a resize history. '
         'non-trivial = operands have different formats or some code is an extreme of its format')
 TECHNIQUE = 'Lean 4 theorems (optimal add/sub/mul results fit their growth-rule format for all formats and codes; value exact; expression trees exact by structural induction) + differential correspondence'
 LEVEL_TEXT = ('Machine-checked for every pair of formats (any signedness mix, any n_frac, unbounded word lengths): the aligned sum/difference/product of in-range codes lies in the range of the growth-rule format, '
@@ -16,7 +16,7 @@ LEVEL_TEXT = ('Machine-checked for every pair of formats (any signedness mix, an
               'Tied to /repo by exhaustive small format pairs, extreme-code corners and random trees through all three call routes.')
 LEVEL_NOTE = 'Trusted: Lean kernel + standard axioms; model-vs-code agreement on generated inputs only (results up to 53 bits, the quantifier of C07; beyond that C19).'
 
-EXEC = {'AR': A.exec_AR}
+EXEC = {'AR': A.exec_AR, 'EXPR': A.exec_EXPR}
 
 
 def _ar(op, meth, route, x, y, r, o, a, b):
@@ -71,6 +71,37 @@ def generate(tier, rng):
         else:
             a = [rng.choice([lox, hix])]; b = [rng.choice([loy, hiy, rng.randint(loy, hiy)]) for _ in range(3)]
         yield _ar(op, meth, _route(rng, meth), x, y, rng.choice(ROUNDS), rng.choice(OVFS), a, b)
+    yield from gen_trees(tier, rng)
+
+
+def rand_tree(rng, depth):
+    """(tokens, format) of a random tree; subtraction nodes always have a signed side (the unsigned exception is AR's business)."""
+    if depth == 0 or rng.random() < 0.25:
+        s = rng.random() < 0.5
+        n = rng.randint(1 + int(s), 6)
+        f = rng.randint(-1, n + 1)
+        lo, hi = lims(s, n)
+        c = rng.choice([lo, hi, rng.randint(lo, hi)])
+        return ['L:%s:%d:%d:%d' % ('s' if s else 'u', n, f, c)], (s, n, f)
+    lt, lf = rand_tree(rng, depth - 1)
+    rt, rf = rand_tree(rng, depth - 1)
+    op = rng.choice(['add', 'sub', 'mul'])
+    if op == 'sub' and not (lf[0] or rf[0]):
+        op = 'add'
+    sg = lf[0] or rf[0]
+    if op == 'mul':
+        fmt = (sg, lf[1] + rf[1], lf[2] + rf[2])
+    else:
+        fmt = (sg, opt_word(op, lf, rf), max(lf[2], rf[2]))
+    return [{'add': '+', 'sub': '-', 'mul': '*'}[op]] + lt + rt, fmt
+
+
+def gen_trees(tier, rng):
+    for _ in range(1500 if tier == 'quick' else 40000):
+        toks, fmt = rand_tree(rng, rng.randint(2, 4))
+        if fmt[1] > 53 or len(toks) < 3:
+            continue
+        yield 'EXPR %s %s %s' % (rng.choice(ROUNDS), rng.choice(OVFS), ' '.join(toks))
 
 
 def nontrivial(full_line, model):
@@ -81,10 +112,11 @@ def nontrivial(full_line, model):
 
 
 def debug_class(t):
-    return ' '.join(t[0:5])
+    return ' '.join(t[0:5]) if t[0] == 'AR' else 'EXPR nodes=%d' % sum(1 for k in t[3:] if k in '+-*')
 
 
 def stats(verdicts):
-    return base.generic_stats(verdicts, lambda t: ['op:' + t[1], 'method:' + t[3], 'route:' + t[4], 'signs:' + t[5] + t[8]],
-                              lambda t: max(len(parse_list(t[13])), len(parse_list(t[14]))),
+    return base.generic_stats(verdicts, lambda t: (['op:' + t[1], 'method:' + t[3], 'route:' + t[4], 'signs:' + t[5] + t[8]] if t[0] == 'AR' else
+                                                   ['op:EXPR', 'tree-nodes:%d' % sum(1 for k in t[3:] if k in '+-*')]),
+                              lambda t: max(len(parse_list(t[13])), len(parse_list(t[14]))) if t[0] == 'AR' else 1,
                               ['AR optimal: every pair of codes of every pair of formats with operand words <=3 (quick, half of the ops sampled) / <=4 (thorough), n_frac -1..n_word+1'])
